@@ -145,10 +145,12 @@ def run(ctx, rep):
                     if h_direct or (h_len and h_key and not h_get):
                         via_helper = True
                         rep.touch(H)
-        ok = direct or (length and keywise) or via_helper
+        # a lookup that cannot tell a missing key from a None value is not a comparison of the key sets
+        get_used = any(isinstance(n, ast.Call) and isinstance(n.func, ast.Attribute) and n.func.attr == "get" and norm(n.func.value) in names for n in ast.walk(fi.node))
+        ok = direct or (length and keywise and not get_used) or via_helper
         rep.oblige(("R3", f), ok, sample={"dict field": f, "compared by": "==" if direct else "length + key-wise" if ok else "one-sided"})
         if not ok:
-            rep.add("R3", fi.qname, f"comparison of {prop}", f"{prop} is compared one-sidedly (key-wise without the length test, or not at all): "
+            rep.add("R3", fi.qname, f"comparison of {prop}", f"{prop} is compared one-sidedly (key-wise without the length test, through a .get() lookup that cannot tell a missing key from a None value, or not at all): "
                     f"the answer is not symmetric", fi.loc())
     # ---- R4 guards evaluated on equal / different values
     for n in ast.walk(fi.node):
